@@ -15,9 +15,11 @@ def classify(sc, kind, key):
 
 def run(ctx):
     scs = rw.scenarios(ctx, {'probe'})
-    # several disagreeing User-Agent lines: the statement speaks of "the" User-Agent -> dont-care, replayed and logged only
+    # two User-Agent lines: "the User-Agent" is the first line (net/http's Request.UserAgent) or, read as one list-valued field, the lines
+    # joined by ", " - both readings begin with the first line, so the verdict is decided by it (Rewrite.tla: req.ua[1]); a later line
+    # that begins with kube-probe/ is "that text elsewhere in the User-Agent"
     dc = [s for s in scs if len(s['req']['ua']) > 1]
-    main = [s for s in scs if len(s['req']['ua']) <= 1]
+    main = scs
     obs = rw.replay(ctx, scs)
     n, samples = rw.judge(ctx, main, obs, [], classify)
     wsc, wobs = wiring.replay_rewrite(ctx, main, limit=200)
@@ -27,5 +29,5 @@ def run(ctx):
                       'one scenario per initial state of family "probe"; local reply (200 "OK", backend untouched) XOR exactly one forward')
     cov['scenarios_replayed_through_real_flag_wiring'] = nw
     cov['traces_validated_against_impl'] = n + nw
-    cov['dont_care_two_user_agent_lines'] = {'replayed': len(dc), 'answered_locally': dc_local}
+    cov['two_user_agent_lines'] = {'replayed_and_judged_by_first_line': len(dc), 'answered_locally': dc_local}
     return ctx.finish(cov, assumptions=['HTTP/1.1 scenarios are additionally replayed through the real wiring (flag.Parse -> defaultReverseProxyHTTPHandler -> defaultProxyServer) by an in-package driver'])
